@@ -42,6 +42,23 @@ func ZZ_C14_Protocol() {
 	for i := 0; i < nw; i++ {
 		tasks[i] = &task[int, int]{n: c.nodeManager.Create(i+1, i+1, 0, 0, 1), writeReason: addReason}
 	}
+	nfill := 0
+	var fill [8]*task[int, int]
+	if vParam("full") == 1 {
+		// the write buffer holds its maximum number of events when the writers arrive (smallest legal buffer: 2 growing
+		// to 4): their first offer is refused, they retry after asking for a drain and fall back to running the
+		// maintenance themselves
+		c.writeBuffer = queue.NewMPSC[task[int, int]](2, 4)
+		for nfill < len(fill) {
+			t := &task[int, int]{n: c.nodeManager.Create(100+nfill, 100+nfill, 0, 0, 1), writeReason: addReason}
+			if !c.writeBuffer.TryPush(t) {
+				break
+			}
+			fill[nfill] = t
+			nfill++
+		}
+		vAssert(nfill == 4, "c14.full.prefill_reaches_the_maximum")
+	}
 	if vParam("pending") == 1 {
 		// a maintenance run is already scheduled/processing when the writers arrive
 		c.scheduleDrainBuffers()
@@ -62,6 +79,9 @@ func ZZ_C14_Protocol() {
 	// all cache calls returned and every goroutine the cache started has finished: nothing may be stranded
 	for i := 0; i < nw; i++ {
 		vAssert(tasks[i].writeReason == unknownReason && tasks[i].n == nil, "c14.every_recorded_write_applied")
+	}
+	for i := 0; i < nfill; i++ {
+		vAssert(fill[i].writeReason == unknownReason && fill[i].n == nil, "c14.every_recorded_write_applied")
 	}
 	vAssert(c.writeBuffer.IsEmpty(), "c14.write_buffer_drained")
 	vAssert(c.drainStatus.Load() == idle, "c14.no_outstanding_maintenance")
